@@ -103,6 +103,11 @@ type Alias struct {
 }
 
 type Project struct {
+	// Mod is the import-path prefix of the project's packages ("" = "simproj"); Hook the import
+	// path of the simhook package; OpPrefix is prepended to "Controller.Method" in hook calls.
+	Mod      string `json:"mod,omitempty"`
+	Hook     string `json:"hook,omitempty"`
+	OpPrefix string `json:"op_prefix,omitempty"`
 	Seed        uint64       `json:"seed"`
 	Profile     string       `json:"profile"`
 	Schemes     []string     `json:"schemes"`
@@ -244,6 +249,20 @@ func (t TypeRef) GoString(fromPkg string) string {
 		}
 		return s + t.Name
 	}
+}
+
+func (p *Project) ModPath() string {
+	if p.Mod != "" {
+		return p.Mod
+	}
+	return Module
+}
+
+func (p *Project) HookPath() string {
+	if p.Hook != "" {
+		return p.Hook
+	}
+	return p.ModPath() + "/simhook"
 }
 
 func (p *Project) String() string {
